@@ -208,17 +208,33 @@ namespace g
    {};
    struct lim_at : seq< at< bytes< 5 > >, any >
    {};
+   // the byte-limited rules report how much they matched: the window of limit_bytes< 3 > is "the data made available" to them
+   inline std::size_t& lim_seen()
+   {
+      static std::size_t m = 0;
+      return m;
+   }
+   struct lim3_base : limit_bytes< 3 >
+   {
+      template< typename AI, typename... S >
+      static void apply( const AI& in, S&&... /*unused*/ )
+      {
+         if( in.size() > lim_seen() ) {
+            lim_seen() = in.size();
+         }
+      }
+   };
    template<>
-   struct lim3_action< lim_word > : limit_bytes< 3 >
+   struct lim3_action< lim_word > : lim3_base
    {};
    template<>
-   struct lim3_action< lim_str > : limit_bytes< 3 >
+   struct lim3_action< lim_str > : lim3_base
    {};
    template<>
-   struct lim3_action< lim_until > : limit_bytes< 3 >
+   struct lim3_action< lim_until > : lim3_base
    {};
    template<>
-   struct lim3_action< lim_at > : limit_bytes< 3 >
+   struct lim3_action< lim_at > : lim3_base
    {};
    struct limited : action< lim3_action, seq< star< one< '#' > >, sor< lim_str, lim_word, lim_at, lim_until >, star< any > > >, memory_only
    {};
@@ -354,7 +370,14 @@ static verdict judge_one( const rule_entry& e, int cls, const std::string& in )
    vf::monitor& m = vf::mon();
    m.reset();
    m.base = in.data();
+   g::lim_seen() = 0;
    const run_out a = e.fn( cls, in.data(), in.size(), 0xbf );
+   if( g::lim_seen() > 3 ) {
+      v.bad = true;
+      v.sig = std::string( "limit-window:matched-beyond-the-byte-limit:" ) + e.name;
+      v.detail = std::string( e.name ) + " on '" + vf::show( in ) + "' (input class " + std::to_string( cls ) + "): a rule under limit_bytes< 3 > matched " + std::to_string( g::lim_seen() ) + " bytes";
+      return v;
+   }
    const bool hook = m.window_flagged;
    const std::string hookwhat = hook ? std::string( m.window_what ) + " " + std::to_string( m.window_amount ) + " with " + std::to_string( m.window_avail ) + " available" : "";
    const std::uint64_t touches = m.boundary_touches;
